@@ -334,7 +334,54 @@ func child(args []string) {
 		r.CaseBegin([]byte(s))
 	}
 	listedID := func(i int) []byte { b, _ := hex.DecodeString(ref.List[i]); return b }
+	// every fourth sequence is a "deep" one: its first segment grows the chain by 20-25 groups, its
+	// later segments start with a fork switch / removal that goes more than 16 groups down (the
+	// sync helpers hand out at most 16 groups at a time)
+	deep := seq%4 == 3
+	if deep && seg == 0 {
+		n := 20 + rng.Intn(6)
+		logop(fmt.Sprintf("bulk-add %d", n))
+		for i := 0; i < n; i++ {
+			g := newGroup(rng, listedID(len(ref.List)-1), listedID(rng.Intn(len(ref.List))), uint64(10+i))
+			if err := gc.AddGroup(g); err != nil {
+				r.Note("bulk add rejected: %v", err)
+				break
+			}
+			ref.add(g.Id, g.Header)
+			r.Count("adds_accepted", 1)
+		}
+		k.check("after the bulk add")
+	}
 	for op := 0; op < nops; op++ {
+		if deep && op == 0 && len(ref.List) > 19 {
+			depth := 17 + rng.Intn(len(ref.List)-18)
+			if depth > 24 {
+				depth = 17 + rng.Intn(8)
+			}
+			h := len(ref.List) - 1 - depth
+			if anc := gc.GetGroupByHeight(uint64(h)); anc != nil {
+				if (seq/4+seg)%2 == 0 {
+					branch := linearBranch(rng, anc, h, 1+rng.Intn(3), op, listedID)
+					logop(fmt.Sprintf("deep-fork-switch ancestor=%d depth=%d branch=%d", h, depth, len(branch)))
+					if forkErr, _ := core.VerifGroupForkSwitch(anc, branch); forkErr == nil {
+						ref.List = ref.List[:h+1]
+						for _, g := range branch {
+							ref.add(g.Id, g.Header)
+						}
+					}
+					r.Count("deep_fork_switches", 1)
+				} else {
+					logop(fmt.Sprintf("deep-remove-above %d depth=%d", h, depth))
+					core.VerifRemoveGroupsAbove(anc)
+					ref.List = ref.List[:h+1]
+					r.Count("deep_removals", 1)
+				}
+				r.Count("removes", int64(depth))
+				r.Count("operations", 1)
+				k.check(fmt.Sprintf("after op %d of segment %d (%s)", op, seg, ref.Ops[len(ref.Ops)-1]))
+				continue
+			}
+		}
 		lastID := listedID(len(ref.List) - 1)
 		parent := listedID(rng.Intn(len(ref.List)))
 		choice := rng.Intn(100)
